@@ -116,6 +116,8 @@ def run(rep):
     level_rule(rep, g, st)
     loaddv_rule(rep, f, sts)
     diag.run(rep, f, "C16")
+    from ..engines import dispatch
+    dispatch.run(rep, f, "C16")
     rep.undecided += ["behavioural identity of state that is recomputed on load (content models, compiled regular expressions)",
                       "the engine's own buffer arithmetic (XSerializeEngine::read/write, alignment) — value-level"]
     rep.assumptions += ["an operation is identified by the resolved overload on an expression denoting the engine "
